@@ -397,6 +397,40 @@ def make_keys(timeout):
     return Cond("keys/equal_but_distinct", [("c0", int), ("c1", int), ("c2", int)], body, mode="E3", timeout=timeout)
 
 
+def make_deepwire(shape, timeout):
+    """"At every nesting depth": the wire form of a valid value of a recursive composite, nested two levels, comes back
+    converted at every level (the reference is the value itself: each leaf converted by its leaf routine)."""
+    site = shape.name
+    try:
+        UT, MT, err = _um(shape.T), _mm(shape.T), None
+    except Exception as e:  # noqa: BLE001
+        UT = MT = None
+        err = type(e).__name__
+
+    def body(**p):
+        if err is not None:
+            reached()
+            return ("build_failed", site, err)
+        v = shape.build(Src(p, narrow=True))
+        ok, m = attempt(MT, v)
+        if not ok:
+            return None
+        ok, r = attempt(UT, m)
+        reached()
+        if not ok:
+            return ("nested_member_rejected", site, _d(v, m, r))
+        w = shape.conforms(r)
+        if w is not None:
+            return ("nested_member_not_converted:" + str(w)[:40], site, _d(v, m, r))
+        if not shape.same(v, r):
+            return ("nested_member_routed_differently", site, _d(v, m, r))
+        return None
+
+    from vlib.shapes import params_for
+
+    return Cond(f"deepwire/{site}", params_for(shape), body, mode="E1", timeout=timeout)
+
+
 def make_hints_history(timeout):
     """The member routines of a class are the same whichever routine of that class was built (and used) first: a plain
     class whose hints come from the string annotations of its constructor, first marshalled / unmarshalled, then reached
@@ -449,4 +483,5 @@ def conditions(tier, seed):
             and len(members(s)) <= 4]
     out.append(make_keys(to))
     out.append(make_hints_history(to))
+    out += [make_deepwire(s, to) for s in universe.recursive(2)]
     return out
